@@ -18,3 +18,23 @@ for v, d in ((1, 1), (2, 1), (2, 0)):
                           defines=['VERSION=%d' % v, 'DELAYS=%d' % d], unwind=70,
                           desc='parse(write(parse(b))) == parse(b) for every byte block b',
                           bounds='all 65/69-byte blocks'))
+
+for v in (0, 1, 2):
+    OBLIGATIONS.append(Ob('C15.opni.rt.v%d' % v, 'C15', 'c/wopn_opni.c', entry='harness_rt', defines=['VERSION=%d' % v], unwind=34,
+                          desc='OPNI: every instrument value saves into exactly the calculated size (exact-size destination) and reloads equal',
+                          bounds='all field values, version argument %d' % v, assumptions=INS_ASSUME[:1] + ['OPNI files carry no flags/delays: both are 0 in the value']))
+    OBLIGATIONS.append(Ob('C15.opni.small.v%d' % v, 'C15', 'c/wopn_opni.c', entry='harness_small', defines=['VERSION=%d' % v], unwind=34,
+                          desc='OPNI: every destination length below the needed size is refused and no byte at/after length is written (symbolic probe)',
+                          bounds='all lengths 0..needed-1'))
+for n in (77, 78, 79, 80):
+    OBLIGATIONS.append(Ob('C15.opni.accept.n%d' % n, 'C15', 'c/wopn_opni.c', entry='harness_accept', defines=['N=%d' % n], unwind=90,
+                          desc='OPNI: for every accepted %d-byte string, load(save(load(b), loaded version)) == load(b)' % n,
+                          bounds='all byte strings of length %d' % n))
+
+# whole bank files: concrete bank counts; the save/reload of complete banks (2 x 128 instruments) does not finish
+# under CBMC (see DESIGN.md), so the file level is claimed for the loader on header-only images and for OPNI files
+for v2 in (0, 1):
+    OBLIGATIONS.append(Ob('C15.bank.version.%s' % ('v2magic' if v2 else 'v1magic'), 'C15', 'c/wopn_bank.c', entry='harness_load',
+                          defines=['MEL=0', 'PER=0', 'V2=%d' % v2], unwind=130,
+                          desc='bank loader, header-only image (0+0 banks), symbolic version code and flags: an accepted image has a version the writer reproduces',
+                          bounds='bank counts 0/0; version code, LFO/chip flags symbolic'))
